@@ -19,8 +19,16 @@ def fromHexAux : List Char → List Nat
 
 def fromHex (s : String) : List Nat := if s = "-" then [] else fromHexAux s.toList
 
-/-- FNV-1a 64 digest (same function as the harness) -/
+/-- FNV-1a 64 digest (same function as the harness); machine words, this is only a digest for comparing outputs -/
 def fnv (bs : List Nat) : Nat :=
-  bs.foldl (fun h b => ((h ^^^ b) * 0x100000001b3) % 2 ^ 64) 0xcbf29ce484222325
+  (bs.foldl (fun (h : UInt64) b => (h ^^^ b.toUInt64) * 0x100000001b3) 0xcbf29ce484222325).toNat
+
+/-- FNV-1a 64 over `mem[a .. a+len)` without building a list -/
+def fnvArray (mem : Array Nat) (a len : Nat) : Nat :=
+  let rec go (i : Nat) (fuel : Nat) (h : UInt64) : UInt64 :=
+    match fuel with
+    | 0 => h
+    | f + 1 => go (i + 1) f ((h ^^^ (mem.getD i 0xFF).toUInt64) * 0x100000001b3)
+  (go a len 0xcbf29ce484222325).toNat
 
 end Fuota.Hex
